@@ -127,7 +127,7 @@ theorem exitFarm_backed {s s' : St} {farm f x farming : Nat} {rew : Option LkTok
   obtain ⟨_, _, ⟨s1, t⟩, h1, h⟩ := h
   have hb1 := takeF_backed hb h1
   dsimp only at h
-  have hb2 : Backed (if farmIsBase farm = true then { s1 with burnB := s1.burnB + farming }
+  have hb2 : Backed (if farmIsBase t.r.farm = true then { s1 with burnB := s1.burnB + farming }
       else { s1 with lp := s1.lp + farming }) := by
     split
     · exact Backed.congr (s := s1) rfl rfl rfl rfl hb1
@@ -165,7 +165,7 @@ theorem claim_backed {s s' : St} {farm f x : Nat} {ft : Nat × Nat} {rew : Optio
   obtain ⟨hR1, hH1, hF1, hhf1, hwl1, hlk1, _, hpt1⟩ := takeF0_delta h0
   have hcg : ∀ κ, R (learnOpt s2' rew) κ = R s2' κ := fun κ => by cases rew <;> rfl
   obtain ⟨_, hR, hH, hF, hhf, hwl, hlk, _, hpt⟩ :=
-    newF_delta (learnOpt s2' rew) farm ft.1 ft.2 r.kind r.pn p
+    newF_delta (learnOpt s2' rew) r.farm ft.1 ft.2 r.kind r.pn p
   have hl : Backed (learnOpt s2' rew) := learnOpt_backed rew (takeF0_backed hb h0)
   refine ⟨?_, ?_, ?_, hpt hl.pt⟩
   · intro κ; rw [hR, hlk]
@@ -177,7 +177,7 @@ theorem claim_backed {s s' : St} {farm f x : Nat} {ft : Nat × Nat} {rew : Optio
     have e' : F (learnOpt s2' rew) g φ = F s2' g φ := by cases rew <;> rfl
     rw [e, e']; have := hF1 g φ; have := hhf1 g φ; have := hb.hf g φ; omega
   · intro v; rw [hH]
-    have e2 : heldOf (newF (learnOpt s2' rew) farm ft.1 ft.2 r.kind r.pn p).1 v = heldOf s v := by
+    have e2 : heldOf (newF (learnOpt s2' rew) r.farm ft.1 ft.2 r.kind r.pn p).1 v = heldOf s v := by
       simp only [heldOf, hwl]
       have : (learnOpt s2' rew).wl = s.wl := by cases rew <;> exact hwl1
       rw [this]
@@ -203,11 +203,11 @@ theorem mergeFarm_backed {s s' : St} {farm : Nat} {l : List (Nat × Nat)} {mf : 
   · simp only [Option.some.injEq, Prod.mk.injEq] at h
     obtain ⟨rfl, _⟩ := h
     apply addStray_backed
-    exact newF_locked_backed farm mf.1 mf.2 t.k t.amt (learn_backed t hb1)
+    exact newF_locked_backed r0.farm mf.1 mf.2 t.k t.amt (learn_backed t hb1)
   · simp only [Option.some.injEq, Prod.mk.injEq] at h
     obtain ⟨rfl, _⟩ := h
     apply addStray_backed
-    exact newW_newF_backed sp t.k t.amt farm mf.1 mf.2 (learn_backed t hb1)
+    exact newW_newF_backed sp t.k t.amt r0.farm mf.1 mf.2 (learn_backed t hb1)
 
 theorem incLp_backed {s s' : St} {w x : Nat} {t : LkTok} {o : Out}
     (hb : Backed s) (h : incLp s w x t = some (s', o)) : Backed s' := by
@@ -247,10 +247,10 @@ theorem step_backed {s s' : St} {op : Op} {o : Out} (hb : Backed s)
   | removeLiq w x rb ro => exact removeLiq_backed hb h
   | enterL farm k a merge ft rew m stray => exact enterL_backed hb h
   | enterW farm w a merge ft rew m stray => exact enterW_backed hb h
-  | exitFarm farm f x farming rew => exact exitFarm_backed hb h
-  | claim farm f x ft rew => exact claim_backed hb h
+  | exitFarm farm f x farming rew => exact exitFarm_backed (farm := farm) hb h
+  | claim farm f x ft rew => exact claim_backed (farm := farm) hb h
   | mergeLp l t => exact mergeLp_backed hb h
-  | mergeFarm farm l mf t stray => exact mergeFarm_backed hb h
+  | mergeFarm farm l mf t stray => exact mergeFarm_backed (farm := farm) hb h
   | incLp w x t => exact incLp_backed hb h
   | incFarm f x t => exact incFarm_backed hb h
 
